@@ -34,7 +34,9 @@ func buildC03(tier string, seed int64) *Family {
 		nSeed = 500
 	}
 	pos := []string{"1", "2", "3", "position() = 1", "position() = 2", "position() < 2", "position() > 1", "position() <= 2", "position() >= 2",
-		"position() != 1", "last()", "position() = last()", "last() - 1", "position() < last()", "position() = last() - 1", "last() = 2", "position() + 1 = last()"}
+		"position() != 1", "last()", "position() = last()", "last() - 1", "position() < last()", "position() = last() - 1", "last() = 2", "position() + 1 = last()",
+		// the same tests written the other way round: position() is evaluated after last()
+		"last() = position()", "last() - 1 = position()", "last() > position()", "2 = position()", "1 < position()", "last() = position() + 1"}
 	steps := []string{"child::a", "child::*", "a", "*", "child::node()", "text()"}
 	ctxs := []string{"", "//", "/*/", "a/", "*/", ".//", "/", "descendant::*/", "../"}
 	bools := []string{"@a", "a", ". = '1'", "not(a)", "following-sibling::*"}
@@ -56,6 +58,27 @@ func buildC03(tier string, seed int64) *Family {
 		}
 		add(t, cfgBig)
 	}
+	// a positional step reached through '//' or a path and followed by further steps: the
+	// counter restarts per parent whatever comes after the step
+	contCfg := docCfg{N: cfg.N, A: 0, Names: "a,b", Pool: ","}
+	contPos := []string{"1", "2", "last()", "position() = 2", "last() - 1", "position() < last()"}
+	for i, pre := range []string{"//a", "//*", "a", "*/a", "/*/*", "descendant::a"} {
+		for j, cont := range []string{"//b", "/descendant::*", "/b", "/..", "/@a", "//*", "/following-sibling::*", "/descendant-or-self::a"} {
+			for k, p := range contPos {
+				if tier != "thorough" && (i+j+k)%5 != 0 {
+					continue
+				}
+				if pre == "descendant::a" {
+					continue // positional predicate on a non-child axis: outside the statement
+				}
+				c := contCfg
+				if cont == "/@a" {
+					c = cfg
+				}
+				add(pre+"["+p+"]"+cont, c)
+			}
+		}
+	}
 	// (E)[n]
 	for _, e := range []string{"a", "*", "//a", "//*", "@*", "*/a", "a/@a", "*/*", "descendant::a", "descendant::*", "self::*", "child::node()", "*/@*"} {
 		for _, n := range []string{"1", "2", "3"} {
@@ -63,7 +86,7 @@ func buildC03(tier string, seed int64) *Family {
 		}
 	}
 	return &Family{
-		Instances: dedupInst(insts),
+		Instances: withReuse(dedupInst(insts), 3),
 		Canaries: []*vm.Instance{
 			canaryInst("H_nodeset", "//a[1]", "(//a)[1]", cfg),
 			canaryInst("H_nodeset", "*[last()]", "*[1]", cfg),
